@@ -31,7 +31,11 @@ namespace Lena.C18
 
 /-! ## Sentence 2a: hoisting -/
 
-/-- **hoisting changes nothing.** However the pipeline is put together — `Source(src, *els)()`,
+/-- **hoisting changes nothing.**  (Content: for `Cache.alter_sequence` (`.hoist`, lemma `buildHoisted_eq`) and the
+bare element (`.bare`).  `.source` and `.sequence` are the same expression in the model, and for
+`lena.core.alter_sequence` (`.viaMeta`) the statement rests on the transcription `metaAlter`, both branches of which
+return the sequence it was given — as meta.py:6-28 does; the `changed` flag computed there is dead code.)
+However the pipeline is put together — `Source(src, *els)()`,
 `Sequence(*els).run(src())`, the result of `Cache.alter_sequence`, the result of `lena.core.alter_sequence`, a bare
 `Cache` — the generators that run are the same, hence so is everything observable. -/
 theorem hoisted_same_chain (mode : Mode) (fs : FS) (s : SrcSpec) (els : List ElSpec) (hm : ModeOk mode els) :
